@@ -102,6 +102,11 @@ def gen_case(rng):
         t['request-id'] = str(len(reqs))
         t['path-constraints']['te-bandwidth']['path_bandwidth'] = rng.choice([100e9, 300e9])
         reqs.append(t)
+    # route twins: a request with an include list (1-2 ROADMs, any order, satisfiable or not, LOOSE / STRICT hops) and a
+    # copy that differs in exactly ONE thing the route depends on; the copy is listed before or after its original
+    if rng.random() < 0.45:
+        k = rng.randrange(len(reqs))
+        route_twin(rng, reqs, k, names)
     case = {'kind': 'batch', 'env': env, 'modes': modes, 'requests': reqs, 'perm_seed': rng.randrange(1 << 30)}
     if rng.random() < 0.3:
         # API-level stream: PathRequest objects built directly, optional fields left out when they have their default
@@ -133,12 +138,6 @@ def gen_sim(rng, reqs, band, env=None):
     elif k < 0.75:
         top = max(2, min(fits))                                      # listed channels must exist in every comb
         nli['computed_channels'] = sorted(set([1, rng.randint(1, top), top]))
-    if method.startswith('ggn'):
-        # the GGN formulas need the roll-off of the propagated comb; an automatically selected mode leaves the request's
-        # roll_off undefined for the Z->A propagation (TypeError in _generalized_psi): not a batch matter, avoided here
-        for r_ in reqs:
-            if r_['path-constraints']['te-bandwidth']['trx_mode'] is None:
-                r_['bidirectional'] = False
     return {'nli_params': nli, 'raman_params': {'flag': False}}
 
 
@@ -202,6 +201,59 @@ def pick_fixed(rng, reqs, modes, band):
     te['spacing'] = next(s for s in c13.SPACINGS if s >= m['min_spacing'])
     te['max-nb-of-channel'] = None
     return r
+
+
+def include_objects(nodes, hops):
+    return {'route-object-include-exclude': [{'explicit-route-usage': 'route-include-ero', 'index': i,
+                                              'num-unnum-hop': {'node-id': n, 'link-tp-id': 'x', 'hop-type': h}}
+                                             for i, (n, h) in enumerate(zip(nodes, hops))]}
+
+
+ROUTE_TWIN_KINDS = ['hop_type', 'hop_type', 'include_order', 'include_node', 'no_include', 'ends_swapped']
+
+
+def route_twin(rng, reqs, k, names):
+    base = reqs[k]
+    src, dst = base['source'].split()[-1], base['destination'].split()[-1]
+    pool = [f'roadm {x}' for x in names]
+    nodes = rng.sample(pool, min(len(pool), rng.choice([1, 2, 2])))
+    r = rng.random()
+    if r < 0.35:
+        nodes = [f'roadm {dst}'] + [n for n in nodes if n != f'roadm {dst}'][:1]      # destination first: cannot be met
+    elif r < 0.5:
+        nodes = [n for n in nodes if n != f'roadm {src}'][:1] + [f'roadm {src}']      # source last: cannot be met
+    hops = [rng.choice(['LOOSE', 'LOOSE', 'STRICT']) for _ in nodes]
+    base['explicit-route-objects'] = include_objects(nodes, hops)
+    t = copy.deepcopy(base)
+    t['request-id'] = str(len(reqs))
+    t.pop('twin_of', None)
+    kinds = ROUTE_TWIN_KINDS[:]
+    rng.shuffle(kinds)
+    for kind in kinds:
+        if kind == 'hop_type':
+            j = rng.randrange(len(nodes))
+            h2 = hops[:]
+            h2[j] = 'LOOSE' if hops[j] == 'STRICT' else 'STRICT'
+            t['explicit-route-objects'] = include_objects(nodes, h2)
+        elif kind == 'include_order':
+            if len(nodes) < 2:
+                continue
+            t['explicit-route-objects'] = include_objects(nodes[::-1], hops[::-1])
+        elif kind == 'include_node':
+            other = [n for n in pool if n not in nodes]
+            if not other:
+                continue
+            n2 = nodes[:]
+            n2[rng.randrange(len(n2))] = rng.choice(other)
+            t['explicit-route-objects'] = include_objects(n2, hops)
+        elif kind == 'no_include':
+            t.pop('explicit-route-objects')
+        else:
+            t['source'], t['destination'] = base['destination'], base['source']
+            t['src-tp-id'], t['dst-tp-id'] = t['source'], t['destination']
+        t['twin_of'] = [base['request-id'], 'route_' + kind]
+        break
+    reqs.insert(rng.choice([k, k + 1]), t)                               # listed before or after its original
 
 
 TWIN_ATTRS = ['tx_power', 'power', 'spacing', 'nb_channel', 'nodes_list', 'loose_list', 'bidir', 'mode']
